@@ -72,7 +72,7 @@ macro_rules! lhs {
                 "F16x2" => pair_fn!($L, Bvf<u16, 2>),
                 "F32x1" => pair_fn!($L, Bvf<u32, 1>),
                 "F64x2" => pair_fn!($L, Bvf<u64, 2>),
-                "F128x2" => pair_fn!($L, Bvf<u128, 2>),
+                "F128x3" => pair_fn!($L, Bvf<u128, 3>),
                 "D" => pair_fn!($L, Bvd),
                 "A" => pair_fn!($L, Bv),
                 t => panic!("rhs type {t}"),
@@ -92,7 +92,7 @@ fn exec(t: &[&str]) -> String {
         "F32x1" => lhs!(Bvf<u32, 1>, rtag, is_uint),
         "F64x2" => lhs!(Bvf<u64, 2>, rtag, is_uint),
         "F64x5" => lhs!(Bvf<u64, 5>, rtag, is_uint),
-        "F128x2" => lhs!(Bvf<u128, 2>, rtag, is_uint),
+        "F128x3" => lhs!(Bvf<u128, 3>, rtag, is_uint),
         "D" => lhs!(Bvd, rtag, is_uint),
         "A" => lhs!(Bv, rtag, is_uint),
         t => panic!("lhs type {t}"),
@@ -100,8 +100,8 @@ fn exec(t: &[&str]) -> String {
     f(op, a)
 }
 
-const LHS: [&str; 7] = ["F8x3", "F32x1", "F64x2", "F64x5", "F128x2", "D", "A"];
-const RHS: [&str; 7] = ["F8x3", "F16x2", "F32x1", "F64x2", "F128x2", "D", "A"];
+const LHS: [&str; 7] = ["F8x3", "F32x1", "F64x2", "F64x5", "F128x3", "D", "A"];
+const RHS: [&str; 7] = ["F8x3", "F16x2", "F32x1", "F64x2", "F128x3", "D", "A"];
 const FORMS: [&str; 6] = ["vv", "vr", "rv", "rr", "av", "ar"];
 const OPS: [&str; 8] = ["add", "sub", "mul", "div", "rem", "and", "or", "xor"];
 
